@@ -157,7 +157,8 @@ fn gen_tree(seed: u64, extra: usize, dpos: usize, up: bool) -> Tree {
         &mut t,
         "layercontents.plist",
         lc,
-        format!("C{}", layers.iter().map(|(n, d)| format!("{}={}", hexs(n), hexs(d))).collect::<Vec<_>>().join("+")),
+        // directories and file names are spelled like `fsfam::describe` spells them (`esc`: byte-exact, `%XX` outside [A-Za-z0-9._-/])
+        format!("C{}", layers.iter().map(|(n, d)| format!("{}={}", hexs(n), hexs(&esc(d.as_bytes())))).collect::<Vec<_>>().join("+")),
     );
     for (li, (_, d)) in layers.iter().enumerate() {
         // many-layer trees stay small: only the first few layers have glyphs
@@ -169,7 +170,7 @@ fn gen_tree(seed: u64, extra: usize, dpos: usize, up: bool) -> Tree {
         for n in &names {
             let file = norad::user_name_to_file_name(n, "", ".glif", |_| true).to_string_lossy().to_string();
             entries.push((n.clone(), format!("<string>{}</string>", file)));
-            toks.push(format!("{}={}", hexs(n), hexs(&file)));
+            toks.push(format!("{}={}", hexs(n), hexs(&esc(file.as_bytes()))));
             put(
                 &mut t,
                 &format!("{}/{}", d, file),
@@ -228,12 +229,12 @@ fn tree_tok(t: &Tree) -> String {
             cur = c.parent();
         }
     }
-    let mut parts: Vec<String> = dirs.iter().map(|d| format!("{}:d", hexs(d))).collect();
+    let mut parts: Vec<String> = dirs.iter().map(|d| format!("{}:d", hexs(&esc(d.as_bytes())))).collect();
     for (p, (_, tok)) in &t.files {
-        parts.push(format!("{}:f:{}", hexs(p), tok));
+        parts.push(format!("{}:f:{}", hexs(&esc(p.as_bytes())), tok));
     }
     for (p, _) in &t.links {
-        parts.push(format!("{}:l", hexs(p)));
+        parts.push(format!("{}:l", hexs(&esc(p.as_bytes()))));
     }
     parts.join(",")
 }
@@ -352,7 +353,7 @@ impl Req {
     fn token(&self) -> String {
         let custom = match self.custom {
             Some('n') => format!("n{}", hexs(&self.name)),
-            Some('d') => format!("d{}", hexs(&self.dir)),
+            Some('d') => format!("d{}", hexs(&esc(self.dir.as_bytes()))),
             Some(c) => c.to_string(),
             None => "-".into(),
         };
